@@ -132,7 +132,7 @@ PROPS = {
         units=['parser', 'parser_expr', 'parser_unary', 'parser_member', 'parser_matchx', 'tokenizer', 'interp_vm_g1', 'interp_vm_g2', 'interp_vm_g3', 'interp_vm_g4', 'parser_top'],
         assumptions=['the Tokenizer trait is modelled by a ghost token sequence and a cursor (peek does not move, next advances by one)', 'the label counter does not overflow (2^32 labels)'],
         level_text="Every grammar level that has a parse function is proved, for every token sequence, to produce exactly the tree the CEL grammar defines: ?: loosest with a right-nesting else branch, ||, &&, the relations incl. in, + -, * / % (one next-tighter operand followed by a LEFT fold over (operator operand)*, exactly the operator set of the level), runs of ! / - applying to one member expression, postfix .name / (args) / [index] applied left to right, parentheses = the enclosed expression, match = scrutinee { case pattern: expr, ... }; the tokenizer's operator table, keyword table and whitespace skipping; the VM arm contracts fix the operand order. A failed obligation is reported as the violation.",
-        not_covered=['that StringTokenizer as a whole refines the ghost token-stream model of the Tokenizer trait (peek does not move, next advances by one, location() = end of the last scanned token): assumed, so whitespace independence is proved only per token (leading whitespace is skipped and is not part of the token)', 'f-strings (that arm of parse_primary is dropped)', "each unit knows the next lower grammar level by contract only; parse_primary's and parse_match_pattern's results are additionally assumed to be functions of the tokens"],
+        not_covered=['that StringTokenizer as a whole refines the ghost token-stream model of the Tokenizer trait (peek does not move, next advances by one, location() = end of the last scanned token): assumed, so whitespace independence is proved only per token (leading whitespace is skipped and is not part of the token)', 'that an embedded f-string expression is tokenized like a top-level one (tokens_of is uninterpreted)', "each unit knows the next lower grammar level by contract only; parse_primary's and parse_match_pattern's results are additionally assumed to be functions of the tokens"],
     ),
     'C13': dict(
         units=['tokenizer', 'parser_unary'],
@@ -144,7 +144,7 @@ PROPS = {
         units=['parser', 'compprog', 'parser_expr', 'parser_unary', 'parser_member', 'parser_matchx', 'parser_top'],
         assumptions=['ProgramDetails::union_from is set union (HashSet, std)'],
         level_text="The identifier set of every node built under contract is proved to be exactly the union of its children's sets plus, for an identifier primary, its own name: add_ident, the compile! sites of the binary levels, append_result / consume_child / from_children*, the ternary (all three operands), match (scrutinee, every pattern, every arm), index expressions, list literals, calls (receiver and every argument) and check_for_const (keeps the set).",
-        not_covered=['filter_from_bindings / IdentFilterIter', 'the f-string arm of parse_primary (dropped arm)', 'variables bound by macros (v in [1].map(v, ..)) are reported as parameters: a superset, allowed by the statement'],
+        not_covered=['filter_from_bindings / IdentFilterIter', 'variables bound by macros (v in [1].map(v, ..)) are reported as parameters: a superset, allowed by the statement'],
     ),
     'C18': dict(
         units=['parser', 'parser_expr', 'parser_unary', 'parser_member', 'parser_matchx', 'scanner', 'tokenizer', 'parser_top'],
@@ -186,12 +186,12 @@ PROPS = {
         assumptions=[],
     ),
     'C14': dict(
-        units=['interp_vm_g5', 'wiring'],
+        units=['interp_vm_g5', 'wiring', 'parser_unary'],
         kani_quick=CONV,
         kani_thorough=[],
         level_text='Numeric conversions: complete Kani proofs over all 64-bit inputs through the real #[dispatch] entry (thorough tier); f-string concatenation: Verus arm contract on the VM. String round trips and non-UTF-8 rejection are std behaviour behind parse/to_string/from_utf8 and are not decided.',
         not_covered=['int(string(i)) == i and the other string round trips (std parse / Display are mutually inverse: assumed)', 'what std::String::from_utf8 accepts (the wiring string(bytes) = from_utf8 or an error IS under contract)',
-                     'type(T(x)) == T', 'the f-string lowering in parse_primary (parser contracts not reached); {{ }} handling in the tokenizer'],
+                     'type(T(x)) == T', '{{ }} handling of f-strings in the tokenizer (segmentation)'],
         assumptions=[],
     ),
     'C12': dict(
@@ -203,7 +203,7 @@ PROPS = {
     'C10': dict(
         units=['preresolved', 'interp', 'interp_vm_g0', 'compprog', 'parser_expr', 'parser_unary', 'parser_match', 'parser_member', 'parser_matchx', 'parser_top', 'balance'],
         assumptions=['HashMap<u32,usize> semantics (vstd)', 'locations[&label] rewritten to *locations.get(&label).unwrap() (std defines Index that way)'],
-        not_covered=['the inductions that chain the balance step lemmas (unit balance) along the token stream: the step lemmas are proved and the parse loops are proved to emit exactly the step templates, the induction connecting the two is not stated; call / list / map / access / type-pattern code is not covered by a balance lemma', "that the opcode stack effects restated in unit balance agree with the VM arm contracts; that the compiler's labels satisfy resolve()'s precondition (unique, defined): assumed", 'PreResolvedByteCode::extend / push / FromIterator (generic IntoIterator loops): assumed', 'f-string code (dropped arm)'],
+        not_covered=['the inductions that chain the balance step lemmas (unit balance) along the token stream: the step lemmas are proved and the parse loops are proved to emit exactly the step templates, the induction connecting the two is not stated; call / list / map / access / type-pattern code is not covered by a balance lemma', "that the opcode stack effects restated in unit balance agree with the VM arm contracts; that the compiler's labels satisfy resolve()'s precondition (unique, defined): assumed", 'PreResolvedByteCode::extend / push / FromIterator (generic IntoIterator loops): assumed'],
     ),
     'C06': dict(
         units=['value_coll', 'value_arith', 'interp_vm_g4', 'interp_vm_g5', 'interp_vm_g6', 'interp_vm_g7', 'wiring', 'parser_member', 'compprog'],
